@@ -36,6 +36,26 @@ class Ctx:
         fn = self.F.fn(qual)
         if fn is None:
             raise Broken(f"anchor function {qual} not found (renamed or removed?)")
+        if qual == "koto_runtime::KotoVm::execute_instructions":
+            fn = self.loop_fn(fn)
+        return fn
+
+    def loop_fn(self, fn):
+        """the function that holds the interpreter loop: `execute_instructions`, or -- when that has become a forwarder
+        (`execute_instructions_with_timeout(timeout)`) -- the one private KotoVm method it hands over to"""
+        disp = "koto_runtime::KotoVm::execute_instruction"
+        for _ in range(2):
+            if any(c.short == disp for c in fn.calls()):
+                return fn
+            cands = []
+            for c in fn.calls():
+                t = self.F.fns.get(c.resolved)
+                if t is not None and t.qual.startswith("koto_runtime::KotoVm::") and t not in cands \
+                        and any(c2.short == disp for c2 in t.calls()):
+                    cands.append(t)
+            if len(cands) != 1:
+                return fn
+            fn = cands[0]
         return fn
 
     # ---- stable labels for closures registered with add_fn("name", closure)
